@@ -77,6 +77,16 @@ Theorem C19_success_ack_processed :
 Proof. exact success_ack_processed. Qed.
 Print Assumptions C19_success_ack_processed.
 
+(* conversion switched off by governance (EnableErc20, or the pair) while an EVM-started transfer is refunded: the
+   timeout / failure acknowledgement is refused as a whole — record, commitment and balances stay, retry possible later *)
+Theorem C19_refund_refused_while_conversion_disabled :
+  forall c q s pk t,
+  find_pk (commits s) c q = Some pk -> p_denom pk = DAlias t -> in_rel (rel s) c q = true ->
+  pair_on s Erc20Switch && pair_on s t = false ->
+  core_deliver on_timeout c q s = s /\ core_deliver (fun pk => on_ack pk false) c q s = s.
+Proof. exact delivery_refused_while_disabled. Qed.
+Print Assumptions C19_refund_refused_while_conversion_disabled.
+
 (* regression, labelled: the success path as it was BEFORE the fix "AfterIBCAckSuccess deletes the IBC transfer
    relation" (finding C19-1, snapshot 6774338) kept the record *)
 Theorem C19_prefix_variant_kept_record_on_success :
